@@ -7,6 +7,8 @@ dst = os.path.join(os.path.dirname(os.path.dirname(os.path.abspath(__file__))), 
 os.makedirs(dst, exist_ok=True)
 shutil.copy(os.path.join(src, "patch.diff"), os.path.join(dst, "patch.diff"))
 demo = os.path.join(src, "tests", "demo.rs")
+if not os.path.exists(demo):
+    demo = os.path.join(src, "demo.rs")
 shutil.copy(demo, os.path.join(dst, "demo.rs"))
 if os.path.exists(os.path.join(src, "NOTES.md")):
     shutil.copy(os.path.join(src, "NOTES.md"), os.path.join(dst, "NOTES.md"))
